@@ -123,10 +123,16 @@ def cellpdf(prog, rep):
             if not lp:
                 why = "the conditional rows must be filled in a loop over the conditioning grid"
                 continue
-            i = ("idx", f"{lp[-1].lineno}:{lp[-1].col_offset}", "enumerate")
+            lid_ = f"{lp[-1].lineno}:{lp[-1].col_offset}"
             it = b.term(lp[-1].iter, lp[-1])
-            if it != ("call", G("enumerate"), (ccond,), ()):
-                why = f"the loop must enumerate coords[conditional_on[dist_idx]], found {show(it)[:100]}"
+            # one row per conditioning value: enumerate(grid) or an index running over range(len(grid))
+            nc_ = ("call", G("len"), (ccond,), ())
+            if it == ("call", G("enumerate"), (ccond,), ()):
+                i = ("idx", lid_, "enumerate")
+            elif it[0] == "call" and it[1] == G("range") and not it[3] and it[2] in ((nc_,), (("const", 0), nc_), (("attr", ccond, "size"),), (("sub", ("attr", ccond, "shape"), ("const", 0)),)):
+                i = ("idx", lid_, "range", it[2])
+            else:
+                why = f"the loop must run over coords[conditional_on[dist_idx]] (enumerate it, or index it over range(len(...))), found {show(it)[:100]}"
                 continue
             given = ("sub", ccond, i)
             okc, why = diff_ok(v, given)
